@@ -217,10 +217,10 @@ def execute(mode: str, threads, schedule=(), complete=True, chooser=None, glue=N
             # the installed Lock talks to whatever it is given as scheduler_rpc; a Client is not one
             self._broken = None if rpc is None else f"'{type(rpc).__name__}' object has no attribute 'semaphore_register'"
 
-        def acquire(self, *a, **kw):
+        def acquire(self, blocking=True, timeout=None):     # signature of distributed.Lock.acquire
             if self._broken:
                 raise AttributeError(self._broken)
-            return self._l.acquire()
+            return self._l.acquire(blocking, -1 if timeout is None else timeout)
 
         def release(self):
             self._l.release()
@@ -718,58 +718,179 @@ def run_plan(tier, nproc=None):
 
 
 # ======================================================================== file sink
-def sink_dir_state(dst: Path, parts_dir: Path):
-    content = dst.read_bytes() if dst.exists() else None
-    files = {}
-    if parts_dir.exists():
-        for f in sorted(os.listdir(parts_dir)):
-            name = f
-            if name.startswith("p") and name.endswith(".bin"):
-                files[int(name[1:-4])] = (parts_dir / f).read_bytes()
+def other_fs_root(reference: Path) -> Path | None:
+    """A writable directory on a file system other than `reference`'s (None if there is none)."""
+    cand = Path("/dev/shm")
+    try:
+        if cand.is_dir() and os.access(cand, os.W_OK) and os.stat(cand).st_dev != os.stat(reference).st_dev:
+            return cand
+    except OSError:
+        pass
+    return None
+
+
+def is_parts_dir(d: Path, dst_name: str) -> bool:
+    return d.is_dir() and d.name.startswith("." + dst_name) and d.name.endswith(".parts")
+
+
+class SinkBench:
+    """Real MPUFileSink objects (the sink and a pickled copy, like the repo's own test) for one
+    destination, with the parts directory placed next to the destination ("none"), under an existing
+    parts_base ("given"), under a parts_base that does not exist yet ("nested") or under a parts_base on
+    ANOTHER file system ("otherfs").  Several rounds of writes + finalise can go through the same objects.
+    The parts directory is found by looking for .<dst name>*.parts under the placement root, not by
+    asking the sink."""
+
+    def __init__(self, base: Path, parts_base_kind, pre=None, limits=None, dst_rel="out/result.bin", fresh=True,
+                 shared_root: Path | None = None):
+        import pickle
+        import tempfile
+        from odc.geo.cog._mpu_fs import MPUFileSink
+
+        if fresh:
+            if base.exists():
+                shutil.rmtree(base)
+            base.mkdir(parents=True)
+        self.dst = base / dst_rel
+        self.dst.parent.mkdir(parents=True, exist_ok=True)
+        self.tmp_root = None
+        self.kind = parts_base_kind
+        if pre is not None:
+            self.dst.write_bytes(pre)
+        if shared_root is not None:
+            pb = self.root = shared_root
+        elif parts_base_kind == "none":
+            pb, self.root = None, self.dst.parent
+        elif parts_base_kind == "given":
+            pb = self.root = base / "pb"
+            pb.mkdir(exist_ok=True)
+        elif parts_base_kind == "otherfs":
+            other = other_fs_root(base)
+            if other is None:       # single file system: nothing to distinguish
+                self.kind = "given"
+                pb = self.root = base / "pb"
+                pb.mkdir(exist_ok=True)
             else:
-                files[-1] = b"?"
-    return content, parts_dir.exists(), files
+                pb = self.root = self.tmp_root = Path(tempfile.mkdtemp(prefix="verif-c18-", dir=str(other)))
+        else:   # nested base that does not exist yet
+            pb = self.root = base / "deep" / "er"
+        arg = pb if pb is None or parts_base_kind == "nested" else str(pb)
+        self.sink = MPUFileSink(self.dst, arg, **(limits or {}))
+        self.sink2 = pickle.loads(pickle.dumps(self.sink))
+
+    def parts_dirs(self):
+        return [d for d in sorted(self.root.iterdir()) if is_parts_dir(d, self.dst.name)] if self.root.is_dir() else []
+
+    def state(self):
+        content = self.dst.read_bytes() if self.dst.exists() else None
+        files = {}
+        dirs = self.parts_dirs()
+        for d in dirs:
+            for f in sorted(os.listdir(d)):
+                if f.startswith("p") and f.endswith(".bin") and f[1:-4].lstrip("-").isdigit():
+                    files[int(f[1:-4])] = (d / f).read_bytes()
+                else:
+                    files[-1] = b"?"
+        return content, bool(dirs), files
+
+    def write(self, i, part, data):
+        d = (self.sink if i % 2 == 0 else self.sink2)(part, data)
+        p = Path(d["Path"])
+        ok = d["PartNumber"] == part and d["Size"] == len(data) and p.read_bytes() == data
+        ok = ok and p.parent.parent == self.root and is_parts_dir(p.parent, self.dst.name)
+        return d, ok
+
+    def round(self, ws, order, keep):
+        dicts = {}
+        ok_write = True
+        for i, (part, data) in enumerate(ws):
+            d, ok = self.write(i, part, data)
+            ok_write &= ok
+            dicts[part] = d
+        ok_write &= len({Path(d["Path"]).parent for d in dicts.values()}) <= 1
+        known = [Path(d["Path"]).parent for d in dicts.values()] or self.parts_dirs() or [self.root / f".{self.dst.name}.parts"]
+        parts = [dicts.get(p, {"PartNumber": p, "Path": str(known[0] / f"p{p:04d}.bin"), "Size": 0}) for p in order]
+        try:
+            rv = self.sink.finalise(parts, keep_parts=keep) if keep else self.sink.finalise(parts)
+            res = ("ok", rv == self.dst)
+        except Exception as e:  # pylint: disable=broad-except
+            res = ("exc", type(e).__name__, str(e)[:100])
+        return res, self.state(), ok_write, parts
+
+    def close(self):
+        if self.tmp_root is not None:
+            shutil.rmtree(self.tmp_root, ignore_errors=True)
 
 
 def sink_run(base: Path, ws, order, keep, parts_base_kind, pre=None, limits=None):
-    """Write parts `ws` = [(part, bytes)] through real sinks (two pickled copies, like
-    the repo's own test), finalise with the returned dicts in `order` (part numbers;
-    a number never written is given a fabricated dictionary).  `pre`: content of a destination
+    """Write parts `ws` = [(part, bytes)] through real sinks, finalise with the returned dicts in `order`
+    (part numbers; a number never written is given a fabricated dictionary).  `pre`: content of a destination
     file that exists beforehand (re-export to the same name).  Returns result + state."""
-    import pickle
-    from odc.geo.cog._mpu_fs import MPUFileSink
+    bench = SinkBench(base, parts_base_kind, pre, limits)
+    try:
+        return bench.round(ws, order, keep)
+    finally:
+        bench.close()
 
+
+def p_sink_reuse(base: Path, rounds, parts_base_kind):
+    """Property, for a sink object used again after finalise (re-export through the same object): every round
+    leaves dst == the concatenation of THAT round's parts, no part file, no parts directory, no exception."""
+    bench = SinkBench(base, parts_base_kind)
+    trail = []
+    try:
+        for k, (ws, order) in enumerate(rounds):
+            before = bench.state()[0]
+            res, state, ok_write, parts = bench.round(ws, order, False)
+            last = dict(ws)
+            want = b"".join(last[p] for p in order)
+            trail.append((before, ws, order, res, state))
+            if res[0] != "ok":
+                return False, f"round {k + 1}: finalise/write raised {res[1]}: {res[2]}", trail
+            content, dir_exists, files = state
+            if not (res[1] and ok_write and content == want and not dir_exists and not files):
+                return False, (f"round {k + 1}: dst={core.short(content, 60)} want={core.short(want, 60)} writes_ok={ok_write} "
+                               f"parts_dir_exists={dir_exists} left={sorted(files)}"), trail
+        return True, f"{len(rounds)} rounds through one sink object", trail
+    except Exception as e:  # pylint: disable=broad-except
+        return False, f"round {len(trail) + 1}: write raised {type(e).__name__}: {str(e)[:100]}", trail
+    finally:
+        bench.close()
+
+
+def p_sink_pair(base: Path, parts_base_kind, wa, wb, order_kind):
+    """Property, for two destinations with the SAME file name in different directories (sharing parts_base when
+    one is given): whatever the interleaving of their writes and finalises, each destination is the concatenation
+    of its own parts and nothing is left behind."""
     if base.exists():
         shutil.rmtree(base)
     base.mkdir(parents=True)
-    dst = base / "out" / "result.bin"
-    dst.parent.mkdir()
-    if pre is not None:
-        dst.write_bytes(pre)
-    if parts_base_kind == "none":
-        pb, parts_dir = None, dst.parent / ".result.bin.parts"
-    elif parts_base_kind == "given":
-        pb, parts_dir = base / "pb", base / "pb" / ".result.bin.parts"
-        pb.mkdir()
-    else:   # nested base that does not exist yet
-        pb, parts_dir = base / "deep" / "er", base / "deep" / "er" / ".result.bin.parts"
-    sink = MPUFileSink(dst, pb if pb is None or parts_base_kind != "given" else str(pb), **(limits or {}))
-    sink2 = pickle.loads(pickle.dumps(sink))
-    dicts = {}
-    ok_write = True
-    for i, (part, data) in enumerate(ws):
-        d = (sink if i % 2 == 0 else sink2)(part, data)
-        ok_write &= d["PartNumber"] == part and d["Size"] == len(data) and Path(d["Path"]).read_bytes() == data
-        ok_write &= Path(d["Path"]).parent == parts_dir
-        dicts[part] = d
-    parts = [dicts.get(p, {"PartNumber": p, "Path": str(parts_dir / f"p{p:04d}.bin"), "Size": 0}) for p in order]
+    first = SinkBench(base, parts_base_kind, dst_rel="d1/x.bin", fresh=False)
+    second = SinkBench(base, parts_base_kind, dst_rel="d2/x.bin", fresh=False,
+                       shared_root=first.root if parts_base_kind != "none" else None)
     try:
-        rv = sink.finalise(parts, keep_parts=keep) if keep else sink.finalise(parts)
-        res = ("ok", rv == dst)
+        da, db = [], []
+        if order_kind == "interleaved":
+            for i in range(max(len(wa), len(wb))):
+                if i < len(wa):
+                    da.append(first.write(i, *wa[i])[0])
+                if i < len(wb):
+                    db.append(second.write(i, *wb[i])[0])
+        else:   # a completely, then b, finalise afterwards
+            da = [first.write(i, *w)[0] for i, w in enumerate(wa)]
+            db = [second.write(i, *w)[0] for i, w in enumerate(wb)]
+        ra = first.sink.finalise(da)
+        rb = second.sink.finalise(db)
+        ca, cb = first.dst.read_bytes(), second.dst.read_bytes()
+        wa_, wb_ = b"".join(d for _, d in wa), b"".join(d for _, d in wb)
+        left = first.parts_dirs() + second.parts_dirs()
+        ok = ca == wa_ and cb == wb_ and ra == first.dst and rb == second.dst and not left
+        return ok, f"d1/x.bin={core.short(ca, 40)} want={core.short(wa_, 40)} d2/x.bin={core.short(cb, 40)} want={core.short(wb_, 40)} left={[str(x.name) for x in left]}"
     except Exception as e:  # pylint: disable=broad-except
-        res = ("exc", type(e).__name__, str(e)[:100])
-    state = sink_dir_state(dst, parts_dir)
-    return res, state, ok_write, parts
+        return False, f"raised {type(e).__name__}: {str(e)[:120]}"
+    finally:
+        first.close()
+        second.close()
 
 
 def cbytes(b: bytes) -> str:
@@ -819,6 +940,11 @@ def zero_length_inputs():
             ws = [(i + 1, b"" if mask[i] else bytes([65 + i]) * (i + 2)) for i in range(n)]
             for pbk in ("none", "given"):
                 yield ws, [p for p, _ in ws], pbk, None, {"min_write_sz": 0}
+    # parts_base on ANOTHER file system than the destination (rename cannot cross devices)
+    for n in (1, 2, 3):
+        ws = [(i + 1, bytes([97 + i]) * (3 * i + 1)) for i in range(n)]
+        yield ws, [p for p, _ in reversed(ws)], "otherfs", None, None
+    yield [(1, b"first"), (2, b""), (3, b"last")], [1, 2, 3], "otherfs", b"already there", {"min_write_sz": 0}
 
 
 def gen_sink_inputs(rng, n):
@@ -845,7 +971,8 @@ def gen_sink_inputs(rng, n):
         pre = None
         if rng.random() < 0.5:      # the destination exists already (re-export to the same name)
             pre = bytes(rng.randrange(256) for _ in range(rng.choice([0, 1, 3, 9, 40])))
-        yield ws, order, rng.choice(["none", "given", "nested"]), pre, rng.choice([None, None, {"min_write_sz": 0}])
+        yield (ws, order, rng.choice(["none", "given", "nested", "otherfs"]), pre,
+               rng.choice([None, None, {"min_write_sz": 0}]))
 
 
 # ======================================================================== limits
@@ -1056,6 +1183,44 @@ def run(out, tier, scratch):
                          f"order={order2} keep={keep} -> {res}")
             out.count("sink:model:" + (res[0] if res[0] == "ok" else res[1]))
             out.case(("sinkm", str(ws2), tuple(order2), keep, hpre), True)
+    # 3b. the same sink object used again after finalise (re-export), 2-3 rounds
+    rr = core.rng("c18-sink-reuse")
+    for i in range(25 if tier == "quick" else 300):
+        rounds = []
+        for _ in range(rr.choice([2, 2, 3])):
+            nums = rr.sample([0, 1, 2, 3, 7, 10, 9999, 10000], rr.choice([1, 2, 3, 4]))
+            ws = [(p, bytes(rr.randrange(256) for _ in range(rr.choice([0, 1, 2, 5, 9])))) for p in nums]
+            order = list(nums)
+            rr.shuffle(order)
+            rounds.append((ws, order))
+        pbk = rr.choice(["none", "given", "nested", "otherfs"])
+        ok, detail, trail = p_sink_reuse(base, rounds, pbk)
+        out.count("sink:reuse-after-finalise")
+        out.case(("sink_reuse", str(rounds), pbk), True)
+        if not ok:
+            violate("c18:sink-reuse", f"rounds={[[(p, len(d)) for p, d in ws] for ws, _ in rounds]} parts_base={pbk}: {detail}",
+                    {"predicate": "sink_reuse", "rounds": [[[[p, d.hex()] for p, d in ws], order] for ws, order in rounds],
+                     "parts_base": pbk, "observed": detail,
+                     "expected": "after every round dst == concatenation of that round's parts; nothing left; no exception"})
+        for (before, ws, order, res, state) in trail:      # each completed round against the model
+            cases.append(sink_case(ws, order, False, res, state, pre=before))
+            texts.append(f"sink reuse round existing_dst={None if before is None else len(before)} "
+                         f"writes={[(p, len(d)) for p, d in ws]} order={order} -> {res}")
+    # 3c. two destinations with the same file name (sharing parts_base when one is given)
+    for i in range(16 if tier == "quick" else 160):
+        pbk = ["none", "given", "otherfs", "given"][i % 4]
+        wa = [(p, bytes(rr.randrange(256) for _ in range(rr.choice([1, 2, 5])))) for p in range(1, rr.choice([2, 3, 4]))]
+        wb = [(p, bytes(rr.randrange(256) for _ in range(rr.choice([1, 3, 4])))) for p in range(1, rr.choice([2, 3, 4]))]
+        okind = ["interleaved", "sequential"][(i // 4) % 2]
+        ok, detail = p_sink_pair(base, pbk, wa, wb, okind)
+        out.count("sink:same-name-pair")
+        out.case(("sink_pair", str(wa), str(wb), pbk, okind), True)
+        if not ok:
+            violate("c18:sink-pair", f"d1/x.bin parts={[(p, len(d)) for p, d in wa]} d2/x.bin parts={[(p, len(d)) for p, d in wb]} "
+                                     f"parts_base={pbk} {okind}: {detail}",
+                    {"predicate": "sink_pair", "a": [[p, d.hex()] for p, d in wa], "b": [[p, d.hex()] for p, d in wb],
+                     "parts_base": pbk, "order": okind, "observed": detail,
+                     "expected": "each destination is the concatenation of its own parts; nothing left; no exception"})
     shutil.rmtree(base, ignore_errors=True)
 
     phase("sink")
@@ -1112,7 +1277,8 @@ def run(out, tier, scratch):
     # (the history "writer created before the client exists" runs once through the corpus witness r3_late_client)
     rc = c18_cluster.real_cluster_check(rounds=3 if tier == "quick" else 10, nwriters=6,
                                         late_rounds=0 if tier == "quick" else 2,
-                                        reuse_rounds=1 if tier == "quick" else 3)
+                                        reuse_rounds=1 if tier == "quick" else 3,
+                                        slow_rounds=0 if tier == "quick" else 1)
     out.case(("real_cluster", rc["status"]), True)
     out.count("real-cluster:" + rc["status"])
     if rc["status"] == "skipped":
@@ -1179,6 +1345,16 @@ def replay_one(rp, scratch=None):
                           None if rp.get("pre") is None else bytes.fromhex(rp["pre"]), rp.get("limits"))
         finally:
             shutil.rmtree(base, ignore_errors=True)
+    if kind in ("sink_reuse", "sink_pair"):
+        base = Path(scratch or "/tmp") / f"c18-replay-{os.getpid()}"
+        try:
+            if kind == "sink_reuse":
+                rounds = [([(p, bytes.fromhex(d)) for p, d in ws], order) for ws, order in rp["rounds"]]
+                return p_sink_reuse(base, rounds, rp["parts_base"])[:2]
+            return p_sink_pair(base, rp["parts_base"], [(p, bytes.fromhex(d)) for p, d in rp["a"]],
+                               [(p, bytes.fromhex(d)) for p, d in rp["b"]], rp["order"])
+        finally:
+            shutil.rmtree(base, ignore_errors=True)
     if kind == "limits":
         import numpy as np
         kw = dict(rp["kwargs"])
@@ -1192,7 +1368,8 @@ def replay_one(rp, scratch=None):
     if kind == "real_cluster":
         from vlib import c18_cluster
         rc = c18_cluster.real_cluster_check(rounds=rp.get("rounds", 1), nwriters=rp.get("nwriters", 4),
-                                            late_rounds=rp.get("late_rounds", 0), reuse_rounds=rp.get("reuse_rounds", 0))
+                                            late_rounds=rp.get("late_rounds", 0), reuse_rounds=rp.get("reuse_rounds", 0),
+                                            slow_rounds=rp.get("slow_rounds", 0))
         return rc["status"] != "fail", (rc["detail"] or f"{rc['status']}: {rc['runs']}")
     if kind == "static_contract":
         from vlib import c18_cluster
